@@ -227,4 +227,164 @@ def p_c19(run):
                     viol("CTR<%s> with a narrow counter does not produce input xor E(counter_i)" % cls,
                          {"arduino_lines": alines}); break
 
-PROPS = {"C08": p_c08, "C11": p_c11, "C12": p_c12, "C18": p_c18, "C19": p_c19}
+# ---------------------------------------------------------------- C20
+def tool_parse_hex(sarg, maxlen):
+    """examples/options.c parse_hex, transcribed: returns list of bytes, or None when it reports an error (returns 0)"""
+    out = []; value = 0; nibble = False
+    for ch in sarg:
+        if ch in "0123456789": value = value * 16 + ord(ch) - 48
+        elif ch in "ABCDEF": value = value * 16 + ord(ch) - 55
+        elif ch in "abcdef": value = value * 16 + ord(ch) - 87
+        elif ch in " :.":
+            if not nibble: continue
+        else:
+            return None
+        nibble = not nibble
+        if not nibble:
+            if len(out) >= maxlen: return None
+            out.append(value & 0xff); value = 0
+    return out if out else None
+
+def tool_options(argv, flags_tweak):
+    """getopt("b:k:t:c:d") + validation of options.c -> None (exit 1 before any file is opened) or dict"""
+    bs = 16; key = None; tw = None; dec = False; files = []
+    i = 0
+    while i < len(argv):
+        a = argv[i]
+        if a == "--": files += argv[i + 1:]; break
+        if a.startswith("-") and len(a) > 1:
+            j = 1
+            while j < len(a):
+                o = a[j]
+                if o == "d": dec = True; j += 1; continue
+                if o in "bktc":
+                    arg = a[j + 1:] if j + 1 < len(a) else (argv[i + 1] if i + 1 < len(argv) else None)
+                    if j + 1 >= len(a): i += 1
+                    if arg is None: return None
+                    if o == "b":
+                        if arg == "64": bs = 8
+                        elif arg == "128": bs = 16
+                        else: return None
+                    elif o == "k":
+                        key = tool_parse_hex(arg, 48)
+                        if key is None: return None
+                    else:
+                        tw = tool_parse_hex(arg, 16)
+                        if tw is None: return None
+                    break
+                return None                       # unknown option
+            i += 1
+        else:
+            files.append(a); i += 1            # GNU getopt permutes: non-options are collected
+    if len(files) < 2 or key is None: return None
+    lo, hi = (bs, 2 * bs) if flags_tweak else (bs, 3 * bs)
+    if not (lo <= len(key) <= hi): return None
+    if tw is not None and len(tw) > bs: return None
+    return {"bs": bs, "key": bytes(key), "tw": None if tw is None else bytes(tw), "dec": dec, "in": files[0], "out": files[1]}
+
+def p_c20(run):
+    import random
+    rng = run.rng
+    # the tools as shipped: guard off, the repository's own makefiles
+    d = run.work.copy_repo("tools")
+    rc, out, err = C.sh(["make", "-C", os.path.join(d, "src"), "-j16"], timeout=600)
+    rc2, out2, err2 = C.sh(["make", "-C", os.path.join(d, "examples")], timeout=600)
+    if rc or rc2:
+        raise C.BuildError("examples", out + err + out2 + err2)
+    tmp = os.path.join(run.work.dir, "files"); os.makedirs(tmp)
+    lengths = [0, 1, 7, 8, 9, 15, 16, 17, 31, 33, 63, 64, 65, 127, 128, 129, 1023, 1024, 1025, 2047, 2048, 2049, 3071, 3100]
+    ncases = 60 if run.tier == "quick" else 600
+    def hexarg(b, fancy):
+        h = b.hex()
+        if fancy == 1: h = h.upper()
+        elif fancy == 2: h = ":".join(h[i:i + 2] for i in range(0, len(h), 2))
+        elif fancy == 3: h = " ".join(h[i:i + 4] for i in range(0, len(h), 4))
+        elif fancy == 4: h = ".".join(h[i:i + 2] for i in range(0, len(h), 2))
+        return h
+    cases = []
+    for n in range(ncases):
+        tool = rng.choice(["ctr", "ctr", "tweak", "ecb"])
+        bs = rng.choice([8, 16])
+        L = rng.choice(lengths) if rng.random() < 0.8 else rng.randint(0, 5000)
+        data = C.rbytes(rng, L)
+        kl = rng.randint(bs, (2 if tool == "tweak" else 3) * bs)
+        twl = rng.choice([None, None, 1, bs // 2, bs - 1, bs])
+        argv = []
+        if bs == 8 or rng.random() < 0.3: argv += rng.choice([["-b", str(bs * 8)], ["-b%d" % (bs * 8)]])
+        argv += rng.choice([["-k", hexarg(C.rbytes(rng, kl), rng.randrange(5))], ["-k" + hexarg(C.rbytes(rng, kl), rng.choice([0, 1]))]])
+        if twl is not None and tool != "ecb":
+            tw = bytearray(C.rbytes(rng, twl))
+            for i in range(rng.choice([0, 0, 1, twl])): tw[twl - 1 - i] = 0xff          # carries in the tweak / counter
+            argv += ["-t" if tool == "tweak" else "-c", hexarg(bytes(tw), rng.randrange(5))]
+        if tool != "ctr" and rng.random() < 0.3: argv += ["-d"]
+        cases.append((tool, argv, data, "valid"))
+    # malformed invocations
+    good_k = ["-k", "000102030405060708090a0b0c0d0e0f"]
+    bad = [[], ["-b", "32"] + good_k, ["-b", "64"] + good_k + good_k[1:],       # 16-byte key is fine for -b 64; extra file name
+           ["-k", "zz"], ["-k", ""], ["-k", "00" * 49], ["-k", "00" * 15], ["-b", "64", "-k", "00" * 25], ["-b64", "-k", "00" * 7],
+           good_k + ["-c", "00" * 17], good_k + ["-t", "00" * 17], good_k + ["-c", "xy"], ["-x"] + good_k, good_k[:1],
+           ["-b", "128"], good_k + ["-b"], ["-k", "0"], ["-k", "0:"], ["-b", "64", "-k", "00" * 16, "-c", "00" * 9],
+           ["-b", "64", "-k", "00" * 17, "-t", "00"]]
+    for argv in bad:
+        for tool in ("ctr", "tweak", "ecb"):
+            cases.append((tool, list(argv), C.rbytes(rng, 40), "malformed"))
+    for tool in ("ctr", "tweak", "ecb"):
+        cases.append((tool, good_k + ["@onlyone"], b"abc", "missing-output-name"))
+        cases.append((tool, good_k + ["@missing-input"], b"", "missing-input-file"))
+    kinds = {}
+    for idx, (tool, argv, data, kind) in enumerate(cases):
+        inp = os.path.join(tmp, "in%d" % idx); outp = os.path.join(tmp, "out%d" % idx)
+        open(inp, "wb").write(data)
+        files = [inp, outp]
+        if "@onlyone" in argv: argv = [a for a in argv if a != "@onlyone"]; files = [inp]
+        if "@missing-input" in argv: argv = [a for a in argv if a != "@missing-input"]; files = [inp + ".nope", outp]
+        full = argv + files
+        if kind == "valid" and rng.random() < 0.2: full = files[:1] + argv + files[1:]      # getopt permutes
+        exe = os.path.join(d, "examples", "skinny-" + tool)
+        p = subprocess.run([exe] + full, capture_output=True, timeout=60)
+        got = open(outp, "rb").read() if os.path.exists(outp) else None
+        run.stats["ops"] += 1; run.stats["scripts"] += 1; run.stats["oracle_checks"] += 1
+        run.stats["shapes"].add("%s %s len=%d" % (tool, " ".join(a if a.startswith("-") and len(a) <= 2 else "<%d>" % len(a) for a in argv), len(data)))
+        kinds[kind] = kinds.get(kind, 0) + 1
+        if len(run.samples) < 5:
+            run.samples.append({"tool": "skinny-" + tool, "argv": argv, "file_bytes": len(data), "exit": p.returncode,
+                                "output_bytes": None if got is None else len(got)})
+        def viol(what):
+            run.add_violation({"property": "C20", "kind": "tool", "what": what, "tool": "skinny-" + tool, "argv": full,
+                               "input_hex": data.hex(), "exit": p.returncode, "output_hex": None if got is None else got.hex()[:4000],
+                               "stderr": p.stderr.decode(errors="replace")[-400:]})
+        opts = tool_options(full, tool == "tweak")
+        if opts is None or not os.path.exists(opts["in"]):
+            # invalid options: non-zero exit and no output
+            if p.returncode == 0: viol("invalid invocation exits 0")
+            elif got is not None and opts is None: viol("invalid options but an output file was produced")
+            continue
+        if p.returncode != 0:
+            viol("valid invocation exits %d" % p.returncode); continue
+        # expected output from the extracted tool model (any batch size gives the same: Coq theorem)
+        m = subprocess.run([run.model, "--tool", tool, str(opts["bs"]), C.hexs(opts["key"]),
+                            "-" if opts["tw"] is None else C.hexs(opts["tw"]), "1" if opts["dec"] else "0",
+                            str(rng.choice([1, 4, 8])), opts["in"]], capture_output=True, text=True, timeout=600)
+        exp = m.stdout.strip()
+        if m.returncode != 0 or exp == "none":
+            raise RuntimeError("harness error: tool model rejected a case the option model accepts: %s %s" % (full, m.stderr[-200:]))
+        exp_b = b"" if exp == "." else bytes.fromhex(exp)
+        if got != exp_b:
+            viol("output file differs from the tool model (%d bytes vs %d expected)" % (-1 if got is None else len(got), len(exp_b))); continue
+        # property-level: length, involution / -d round trip, through the real binaries
+        if tool == "ctr":
+            if len(got) != len(data): viol("skinny-ctr output length differs from input length"); continue
+            back = os.path.join(tmp, "back%d" % idx)
+            subprocess.run([exe] + argv + [outp, back], capture_output=True, timeout=60)
+            if open(back, "rb").read() != data: viol("running skinny-ctr twice does not restore the input")
+        else:
+            whole = len(data) - len(data) % opts["bs"]
+            if len(got) != whole: viol("output is not the whole blocks of the input"); continue
+            back = os.path.join(tmp, "back%d" % idx)
+            argv2 = [a for a in argv if a != "-d"] + ([] if opts["dec"] else ["-d"])
+            subprocess.run([exe] + argv2 + [outp, back], capture_output=True, timeout=60)
+            if open(back, "rb").read() != data[:whole]: viol("-d does not restore the whole blocks")
+    run.stats["op_kinds"] = kinds
+    run.stats["variants"].add("examples as shipped (guard off, gcc -O3)")
+
+PROPS = {"C08": p_c08, "C11": p_c11, "C12": p_c12, "C18": p_c18, "C19": p_c19, "C20": p_c20}
